@@ -140,3 +140,16 @@ Theorem C04_pyproject_tables_documented :
   = [([w_project], w_dependencies); ([w_build_system], w_requires); ([w_project; w_optional_dependencies], [])].
 Proof. exact py_tables_documented. Qed.
 Print Assumptions C04_pyproject.
+
+(* pnpm-workspace.yaml: for every document whose tree-sitter-yaml tree denotes a YAML value v (Spec/YamlDoc.v: block or
+   flow collections, plain / quoted one-line scalars without escapes), inside the documented shape (pnpm_shape_ok: the
+   entries of a catalog mapping are scalars) and outside the known classes (pnpm_known: a catalog section written in
+   flow style; a key named catalog / catalogs below the top level), the walk reports exactly the entries of `catalog`
+   and of every group of `catalogs`, in document order *)
+From VL Require Import Spec.YamlDoc Proofs.YamlWalkProofs.
+Theorem C04_pnpm_workspace :
+  forall content root v,
+  denote_yaml content root = Some v -> pnpm_shape_ok v = true -> pnpm_known v = false ->
+  exists pkgs, walk_pnpm content root = Some pkgs /\ map YamlWalkProofs.nv pkgs = declared_pnpm v.
+Proof. exact pnpm_exact. Qed.
+Print Assumptions C04_pnpm_workspace.
